@@ -526,6 +526,31 @@ int main(int argc, char ** argv) {
             }
         }
     }
+    {   /* exponent marks: a sign behind the mark needs digits; "1e+" is the number 1, the suffix e and a stray plus sign (a minus sign may belong to a suffix), i.e. not program
+         * data (no handler, a -1xx error, FALSE) - alone, behind another item and in front of one; with digits the item is delivered */
+        static const char * bad[] = {"1e+", "2E+", "1 E +", "1.5e +", ".5E+", "1e+ ", "7E+\t"};
+        static const char * good[] = {"1e+2", "2E-1", "1 E -1", "1.5e +0", ".5E+1", "1e2", "7E-0"};
+        int bi, v, gd;
+        for (gd = 0; gd < 2; gd++) for (bi = 0; bi < 7; bi++) for (v = 0; v < 6; v++) {
+            char msg[64]; int ml; scpi_bool_t ret;
+            const char * lit = gd ? good[bi] : bad[bi];
+            if (!MC_CASE()) continue;
+            mc_case_tag = "exponent-sign"; mc_case_s[0] = (const unsigned char *) lit; mc_case_n[0] = strlen(lit); mc_case_i[0] = v;
+            tc_reinit(&T, cmds); h_ret_err = 0; h_stop = 0; h_own = 0;
+            nsig = v < 2 ? 1 : 2; sig[0].reader = (v == 1 || v == 3) ? R_INT32 : R_DOUBLE; sig[0].mandatory = 1; sig[1].reader = (v & 1) ? R_INT32 : R_DOUBLE; sig[1].mandatory = 1;
+            ml = v < 2 ? sprintf(msg, "CMD %s\n", lit) : v < 4 ? sprintf(msg, "CMD 5 , %s\n", lit) : sprintf(msg, "CMD %s,5\n", lit);
+            tr_reset();
+            ret = SCPI_Input(&T.ctx, msg, ml);
+            n_cases++;
+            if (!gd) {
+                if (strstr(TR, "H;") || !(strstr(TR, "E-1") == TR) || ret) mc_viol("c05/exponent-sign-without-digits/not-refused", "message [%s] (exponent mark and sign without digits): trace [%s] return %d, expected command errors only and FALSE", mc_e(msg, (size_t) ml), mc_es(TR), (int) ret);
+                else n_malformed++;
+            } else {
+                if (!(strstr(TR, "H;") == TR) || strstr(TR, "E-") || !ret) mc_viol("c05/exponent-with-digits/not-delivered", "message [%s]: trace [%s] return %d, expected the handler to read both items without error", mc_e(msg, (size_t) ml), mc_es(TR), (int) ret);
+                else n_wellformed++;
+            }
+        }
+    }
     {   /* every unit suffix of IEEE 488.2 table 7-1 that the pinned library knows (golden_units.h, not the library's own table) is a
          * KNOWN suffix: delivered with its unit and multiplier by the number reader, alone and as an item of a list; the same name with
          * one more letter is unknown (-131) */
